@@ -159,6 +159,9 @@ def check(repo: Repo, run: Run) -> None:
     # C11.D2 (whole seconds followed by `s`) -- shared instances
     run.borrow(repo, "C11", "C15.J7", lambda o: o["rule"] == "C11.D2" and "__str__" in o["key"], 1)
     run.borrow(repo, "C10", "C15.J7", lambda o: o["rule"] == "C10.R8", 1)
+    # J8: a native timedelta / datetime handed to json_to_cel (or produced by CEL arithmetic and then encoded) is
+    # re-wrapped exactly, sign and sub-second part included (instances of C11.D3)
+    run.borrow(repo, "C11", "C15.J8", lambda o: o["rule"] == "C11.D3", 1)
     run.floor("C15.J5", check_absent_vs_falsy(repo, run, "C15.J5", ("BoolType", "IntType", "DoubleType", "StringType")), 4)
     # J1 -----------------------------------------------------------------
     targets = [("json_to_cel", j2c, param)]
